@@ -17,9 +17,13 @@ from __future__ import annotations
 
 import json
 import operator
+import sys
 from typing import Any
 
 from harness.vlib.core import Ctx, ToolFailure
+
+if hasattr(sys, "set_int_max_str_digits"):
+    sys.set_int_max_str_digits(0)      # big ints travel as decimal text to the Lean driver
 
 MODEL_FILES = ["MypyVerif/Model/Fold.lean", "MypyVerif/Proofs/Fold.lean"]
 DRIVER = "Driver/C12Fold.lean"
@@ -205,25 +209,48 @@ class Unsafe(Exception):
 
 
 def tree_eval(t: Any) -> Any:
-    """CPython's value of the tree, refusing operand sizes that would be expensive (→ Unsafe)"""
+    """CPython's value of the tree.  *Every* sub-tree is evaluated (the folder folds both operands even
+    when the other one is not foldable), so that an expensive application anywhere → Unsafe.
+    Raises the Python exception of the first failing application in evaluation order."""
+    kind, payload = _tree_eval(t)
+    if kind == "raise":
+        raise payload
+    return payload
+
+
+def _tree_eval(t: Any) -> tuple[str, Any]:
     k = t[0]
     if k == "lit":
-        return t[1]
+        return "ok", t[1]
     if k == "T":
-        return True
+        return "ok", True
     if k == "F":
-        return False
+        return "ok", False
     if k == "ref":
-        return t[2]
+        return "ok", t[2]
     if k == "bin":
-        l, r = tree_eval(t[2]), tree_eval(t[3])
+        lk, l = _tree_eval(t[2])
+        rk, r = _tree_eval(t[3])
+        if lk == "raise":
+            return lk, l
+        if rk == "raise":
+            return rk, r
         if not safe_operands(t[1], l, r):
             raise Unsafe()
-        v = PYOP[t[1]](l, r)
-        if isinstance(v, int) and v.bit_length() > 20000 or isinstance(v, (str, bytes)) and len(v) > 5000:
+        try:
+            v = PYOP[t[1]](l, r)
+        except (ZeroDivisionError, ValueError, TypeError, OverflowError) as e:
+            return "raise", e
+        if isinstance(v, int) and v.bit_length() > 12000 or isinstance(v, (str, bytes)) and len(v) > 5000:
             raise Unsafe()
-        return v
-    return PYUN[t[1]](tree_eval(t[2]))
+        return "ok", v
+    ek, e = _tree_eval(t[2])
+    if ek == "raise":
+        return ek, e
+    try:
+        return "ok", PYUN[t[1]](e)
+    except TypeError as ex:
+        return "raise", ex
 
 
 def tree_nodes(t: Any, mypyc: bool):
@@ -305,6 +332,15 @@ def operand_class(v: Any) -> str:
     return type(v).__name__
 
 
+def report_once(ctx: Ctx, observed: dict, what: str, detail: Any) -> None:
+    """one report per distinct observed-dict (a class of failures), not one per case"""
+    seen = ctx.__dict__.setdefault("_fold_reported", {})
+    key = json.dumps(observed, sort_keys=True)
+    seen[key] = seen.get(key, 0) + 1
+    if seen[key] == 1:
+        ctx.report(observed, what, detail)
+
+
 def property_check(ctx: Ctx, which: str, kind: str, op: str, operands: list, real_c: str, real_raw: Any,
                    want_c: str, want_exact: str | None = None) -> bool:
     """The property's own oracle on one case.  Returns True when it holds.
@@ -319,7 +355,7 @@ def property_check(ctx: Ctx, which: str, kind: str, op: str, operands: list, rea
         detail["operands_repr"] = [repr(o) for o in operands]
     classes = [operand_class(o) for o in operands]
     if real_c.startswith("exc:"):
-        ctx.report({"sub": "fold", "class": "folder-raises", "exception": real_c[4:],
+        report_once(ctx, {"sub": "fold", "class": "folder-raises", "exception": real_c[4:],
                     "cpython": want_c},
                    f"{which} folder raised {real_c[4:]} on {op} {[describe(o) for o in operands]} "
                    f"(CPython: {want_c})", detail)
@@ -330,7 +366,7 @@ def property_check(ctx: Ctx, which: str, kind: str, op: str, operands: list, rea
     if ok and want_exact is not None and real_c == "float":
         ok = canon_exact(real_raw) == want_exact
     if not ok:
-        ctx.report({"sub": "fold", "class": "folded-value-differs", "op": ("u" if kind == "U" else "") + op,
+        report_once(ctx, {"sub": "fold", "class": "folded-value-differs", "op": ("u" if kind == "U" else "") + op,
                     "operand_types": ",".join(classes), "folder_result_type": type(real_raw).__name__},
                    f"{which} folds {op} {[describe(o) for o in operands]} to {describe(real_raw)}, "
                    f"CPython gives {want_c}", detail)
@@ -394,7 +430,7 @@ def run_grid(ctx: Ctx) -> None:
         # the property itself on the real folder
         holds = property_check(ctx, which, kind, op, ops, real_c, real_raw, want)
         # (a) real folder vs model of the folder
-        if real_c != mfold:
+        if real_c != mfold and not real_c.startswith("exc:"):
             nd_fold += 1
             ctx.count("disagreements_checked")
             if holds and nd_fold <= 3:
@@ -488,19 +524,13 @@ def run_trees(ctx: Ctx) -> None:
         if real_c.startswith("exc:") or (real_c != "none" and real_c != want):
             holds = False
             src = tree_src(t, {})
-            if real_c.startswith("exc:"):
-                ctx.report({"sub": "fold", "class": "folder-raises", "exception": real_c[4:], "cpython": want},
-                           f"{which} constant_fold_expr raised {real_c[4:]} on {src} (CPython: {want})",
-                           {"sub": "fold", "folder": which, "kind": "E", "tokens": line, "source": src})
-            else:
-                # find the smallest sub-tree where the folder first goes wrong → classify
-                cls = first_wrong_subtree(t, ext)
-                ctx.report(cls, f"{which} folds {src} to {real_c}, CPython gives {want}",
-                           {"sub": "fold", "folder": which, "kind": "E", "tokens": line, "source": src,
-                            "folder_result": real_c, "cpython": want})
+            obs, where = first_wrong_subtree(t, ext)
+            report_once(ctx, obs, f"{which} constant_fold_expr gives {real_c} for {src}, CPython gives {want} ({where})",
+                        {"sub": "fold", "folder": which, "kind": "E", "tokens": line, "source": src,
+                         "folder_result": real_c, "cpython": want})
         # a float below the root is outside the model: compare the real folder with CPython only
         float_path = real_c == "float" or (mfold == "none" and mpy == "notmodelled")
-        if not float_path and real_c != mfold:
+        if not float_path and real_c != mfold and not real_c.startswith("exc:"):
             nd += 1
             ctx.count("disagreements_checked")
             if holds and nd <= 3:
@@ -516,50 +546,62 @@ def run_trees(ctx: Ctx) -> None:
         ctx.sample({"fold_tree": lines[0], "model": model[0]})
 
 
-def first_wrong_subtree(t: Any, ext: int) -> dict:
-    """observed-dict (for known-finding matching) of the innermost operator application the real folder
-    gets wrong; falls back to a generic class"""
+def first_wrong_subtree(t: Any, ext: int) -> tuple[dict, str]:
+    """(observed-dict for known-finding matching, description) of the innermost operator application the
+    real folder gets wrong (raises, or returns a value CPython does not compute)"""
     from mypy.constant_fold import constant_fold_binary_op, constant_fold_unary_op
     from mypyc.irbuild.constant_fold import constant_fold_binary_op_extended
+
+    def judge(op, unary, operands):
+        if unary:
+            fn, pyf = constant_fold_unary_op, PYUN[op]
+            args = operands
+        else:
+            fn, pyf = (constant_fold_binary_op_extended if ext else constant_fold_binary_op), PYOP[op]
+            args = operands
+        try:
+            want = canon(pyf(*args))
+        except Exception as e:  # noqa: BLE001
+            want = "raise:" + type(e).__name__
+        got, raw = (real_call(fn, op, *args))
+        where = f"{op} on {[describe(o) for o in args]}: folder {got}, CPython {want}"
+        if got.startswith("exc:"):
+            return {"sub": "fold", "class": "folder-raises", "exception": got[4:], "cpython": want}, where
+        if got not in ("none", want):
+            return {"sub": "fold", "class": "folded-value-differs", "op": ("u" if unary else "") + op,
+                    "operand_types": ",".join(operand_class(o) for o in args),
+                    "folder_result_type": type(raw).__name__}, where
+        return None
 
     def walk(x):
         k = x[0]
         if k == "bin":
-            for s in (x[2], x[3]):
-                r = walk(s)
+            for sub in (x[2], x[3]):
+                r = walk(sub)
                 if r:
                     return r
-            try:
-                l, r = tree_eval(x[2]), tree_eval(x[3])
-                want = canon(PYOP[x[1]](l, r))
-            except Exception:  # noqa: BLE001
-                return None
-            fn = constant_fold_binary_op_extended if ext else constant_fold_binary_op
-            got, raw = real_call(fn, x[1], l, r)
-            if got not in ("none", want):
-                return {"sub": "fold", "class": "folded-value-differs", "op": x[1],
-                        "operand_types": operand_class(l) + "," + operand_class(r),
-                        "folder_result_type": type(raw).__name__}
+            (lk, l), (rk, r) = _tree_eval(x[2]), _tree_eval(x[3])
+            if lk == "ok" and rk == "ok":
+                return judge(x[1], False, [l, r])
         elif k == "un":
             r = walk(x[2])
             if r:
                 return r
-            try:
-                v = tree_eval(x[2])
-                want = canon(PYUN[x[1]](v))
-            except Exception:  # noqa: BLE001
-                return None
-            got, raw = real_call(constant_fold_unary_op, x[1], v)
-            if got not in ("none", want):
-                return {"sub": "fold", "class": "folded-value-differs", "op": "u" + x[1],
-                        "operand_types": operand_class(v), "folder_result_type": type(raw).__name__}
+            ek, e = _tree_eval(x[2])
+            if ek == "ok":
+                return judge(x[1], True, [e])
         return None
-    return walk(t) or {"sub": "fold", "class": "folded-value-differs", "op": "tree"}
+    try:
+        res = walk(t)
+    except Unsafe:
+        res = None
+    return res or ({"sub": "fold", "class": "folded-value-differs", "op": "tree"}, "not localised")
 
 
 def run_end_to_end(ctx: Ctx) -> None:
     """`X: Final = <expr>` through a real build: parser → semantic analysis → Var.final_value."""
     from mypy import build as mbuild
+    from mypy.constant_fold import constant_fold_expr
     from mypy.fscache import FileSystemCache
     from mypy.modulefinder import BuildSource
     from mypy.options import Options
@@ -581,6 +623,10 @@ def run_end_to_end(ctx: Ctx) -> None:
             continue
         except (ZeroDivisionError, ValueError, TypeError, OverflowError) as e:
             want = "raise:" + type(e).__name__
+        # a folder that raises takes the whole build down; those are found (and reported) by run_trees
+        if real_call(constant_fold_expr, tree_nodes(t, False), "m")[0].startswith("exc:"):
+            ctx.count("fold_e2e_skipped_folder_raises")
+            continue
         trees.append(t)
         wants.append(want)
     names: dict = {}
@@ -612,8 +658,8 @@ def run_end_to_end(ctx: Ctx) -> None:
         if culprit is None:
             raise ToolFailure(f"end-to-end fold build failed: {type(e).__name__}: {e}")
         i, t, r = culprit
-        ctx.report({"sub": "fold", "class": "folder-raises", "exception": r[4:], "cpython": wants[i]},
-                   f"mypy crashes ({r[4:]}) on `X: Final = {tree_src(t, {})}`",
+        obs, where = first_wrong_subtree(t, 0)
+        report_once(ctx, obs, f"mypy crashes ({r[4:]}) on `X: Final = {tree_src(t, {})}` ({where})",
                    {"sub": "fold", "kind": "E", "folder": "mypy", "tokens": "E 0 " + " ".join(tree_tokens(t))})
         return
     tree = res.files["m"]
@@ -634,8 +680,9 @@ def run_end_to_end(ctx: Ctx) -> None:
             raise ToolFailure(f"Python-semantics model disagrees with CPython on {lines[i]!r}: {mpy} vs {want}")
         holds = real_c == "none" or real_c == want
         if not holds:
-            ctx.report(first_wrong_subtree(t, 0),
-                       f"mypy records final_value {real_c} for `X: Final = {tree_src(t, {})}`, CPython gives {want}",
+            obs, where = first_wrong_subtree(t, 0)
+            report_once(ctx, obs,
+                       f"mypy records final_value {real_c} for `X: Final = {tree_src(t, {})}`, CPython gives {want} ({where})",
                        {"sub": "fold", "kind": "E2E", "folder": "mypy", "tokens": lines[i], "source": tree_src(t, {}),
                         "folder_result": real_c, "cpython": want})
         float_path = real_c == "float" or (mfold == "none" and mpy == "notmodelled")
